@@ -63,7 +63,15 @@ def rec_find(jp, q: str, doc, env=None, extra: Optional[Dict[str, Any]] = None,
     if extra:
         rec.update(extra)
     try:
-        nodes = (env or jp).find(q, doc)
+        compiled = (env or jp).compile(q)
+    except Exception as err:  # noqa: BLE001
+        _err(rec, err, jp.JSONPathError)
+        rec["stage"] = "compile"
+        rec["locs"] = []
+        return rec
+    rec["stage"] = "find"
+    try:
+        nodes = compiled.find(doc)
         rec["out"] = "ok"
         rec["jp"] = True
         rec["cls"] = ""
